@@ -46,7 +46,9 @@ def run_tlc(spec_dir, module, cfg=None, env=None, workers=1, timeout=3600, extra
     wd = keep or scratch("tlc-")
     try:
         _stage(spec_dir, wd)
-        cmd = ["java", "-XX:+UseParallelGC", "-Xss64m"]
+        jtmp = os.path.join(wd, "jtmp")          # TLC unpacks library modules into java.io.tmpdir and leaves them behind
+        os.makedirs(jtmp, exist_ok=True)
+        cmd = ["java", "-XX:+UseParallelGC", "-Xss64m", "-Djava.io.tmpdir=" + jtmp]
         if heap:
             cmd.append("-Xmx" + heap)
         cmd += ["-cp", JAR, "tlc2.TLC", "-workers", str(workers), "-metadir", os.path.join(wd, "states"),
